@@ -1373,8 +1373,9 @@ def _finalize_results(
 
     # Final reindexing has to be here to be lazy
     if not reindex.blockwise and expected_groups is not None:
+        # the final dtype has room for the user's fill value (e.g. any/all or count with a negative or fractional fill): cast first
         finalized[agg.name] = reindex_(
-            finalized[agg.name],
+            finalized[agg.name].astype(agg.dtype["final"], copy=False),
             squeezed["groups"],
             expected_groups,
             fill_value=fill_value,
